@@ -308,8 +308,24 @@ def twin_corner(depth, file):
 
 
 # ---- running packs ------------------------------------------------------------------------------------------
+ADS_MODULE = 'acme.ty.v1'      # old naming of the alternative (Ads) template set
+
+
+class _Prefixed:
+    """chk with every case / violation key prefixed (results of the Ads template set are keyed 'ads:...')."""
+    def __init__(self, chk, pre):
+        self.chk, self.pre = chk, pre
+
+    def case(self, key=None, nontrivial=True):
+        return self.chk.case(self.pre + key if isinstance(key, str) else key, nontrivial=nontrivial)
+
+    def violation(self, key, summary, replay=None):
+        return self.chk.violation(self.pre + key, ('[Ads templates] ' if self.pre else '') + summary, replay)
+
+
 def _run_pack(args):
-    subjects, seed, nrandom, rlen = args
+    subjects, seed, nrandom, rlen = args[:4]
+    ads = len(args) > 4 and args[4]
     api, info = build_api(subjects)
     payload_subjects = []
     for s in subjects:
@@ -319,23 +335,27 @@ def _run_pack(args):
                                          random=s.get('nrandom', nrandom), rlen=s.get('rlen', rlen)))
     with gen.scratch() as work:
         try:
-            req, res = gen.generate_api(api, dict(transport=['grpc'], snippets=False), work)
+            opts = dict(transport=['grpc'], snippets=False)
+            if ads:
+                opts.update(templates='ads-templates', old_naming=True)
+            req, res = gen.generate_api(api, opts, work)
             if res.error:
-                return dict(info=info, gen_error=scrub(res.error[-2000:]))
+                return dict(info=info, gen_error=scrub(res.error[-2000:]), ads=ads)
         except Exception as e:  # the generator itself failed on this input
             import traceback
-            return dict(info=info, gen_error=scrub(traceback.format_exc()[-2000:]))
+            return dict(info=info, gen_error=scrub(traceback.format_exc()[-2000:]), ads=ads)
         root = gen.materialise(res, os.path.join(work, 'out'))
         for f in req.proto_file:
             if f.name.startswith('other/'):
                 pipeline.write_pb2(f, root)
         ok, out, err = gen.run_driver('harness.drivers.types', root,
-                                      dict(api=api, module=MODULE, pkg=PKG, subjects=payload_subjects, seed=seed), timeout=1700)
+                                      dict(api=api, module=ADS_MODULE if ads else MODULE, pkg=PKG, subjects=payload_subjects, seed=seed),
+                                      timeout=1700)
     if not ok:
-        return dict(info=info, driver_error=scrub(err))
+        return dict(info=info, driver_error=scrub(err), ads=ads)
     if out.get('import_error'):
         out['import_error'] = scrub(out['import_error'])
-    return dict(info=info, out=out)
+    return dict(info=info, out=out, ads=ads)
 
 
 def failure_of(r):
@@ -512,6 +532,10 @@ def main(chk, args):
     results = []
     with ProcessPoolExecutor(min(14, len(packs) + len(probes))) as ex:
         futs = [ex.submit(_run_pack, (p, chk.seed + k, nrandom, rlen)) for k, p in enumerate(packs)]
+        # the same shapes through the alternative (Ads) template set, which has its own message / enum templates: the hand-laid
+        # shapes and two of the packs in quick, everything in thorough
+        ads_packs = packs if not quick else [p for p in packs if any(s.get('big') for s in p)] + [p for p in packs if not any(s.get('big') for s in p)][:2]
+        afuts = [ex.submit(_run_pack, (p, chk.seed + k, nrandom, rlen, True)) for k, p in enumerate(ads_packs)]
         pfuts = [ex.submit(_run_pack, ([s], chk.seed, nrandom, rlen)) for _, s in probes]
         pres = [f.result() for f in pfuts]
         # a risky class whose representative imports fine is run in full
@@ -532,6 +556,18 @@ def main(chk, args):
                     late.append(ex.submit(_run_pack, (risky[cls][1:], chk.seed, nrandom, rlen)))
                     late[-1].subjects = risky[cls][1:]
         todo = [(p, f.result()) for p, f in zip(packs, futs)] + [(f.subjects, f.result()) for f in late]
+        for p, f in zip(ads_packs, afuts):
+            r = f.result()
+            fl = failure_of(r)
+            if fl and fl[0] == 'driver':
+                raise core.MachineryError('types driver failed (Ads templates):\n' + fl[1])
+            if fl:       # not bisected: the default template set bisects the same shapes
+                chk.case(f'ads:{fl[0]}:pack')
+                chk.violation(f'ads:{fl[0]}:{error_class(fl[1])}:pack', f'[Ads templates] a package of {len(p)} shapes fails ({fl[0]}): '
+                              f'{fl[1].strip().splitlines()[-1][:300]}', dict(error=fl[1][-1500:], shapes=len(p)))
+            else:
+                results.append((p, r))
+        chk.extra['ads_packs'] = len(ads_packs)
         # bisect packs that failed as a whole (down to single shapes for the first few, the rest are reported per pack)
         culprits = 0
         while todo:
@@ -575,8 +611,11 @@ def main(chk, args):
     nclasses = 0
     for p, r in results:
         info, out = r['info'], r['out']
+        C = _Prefixed(chk, 'ads:' if r.get('ads') else '')
         by_id = {}
         for t in out['traces']:
+            if r.get('ads') and t['kind'] == 'file':
+                continue          # what `types/__init__` re-exports is a matter of the template set's layout, not of C02
             all_traces.append(t)
             if t['kind'] == 'val':
                 nclasses += 1
@@ -591,19 +630,21 @@ def main(chk, args):
                 ev = t['events'][0] if t else dict(ev='missing')
                 obs = sorted([m['name'], m['number']] for m in ev.get('members', []))
                 key = 'enum:' + ','.join(str(k) for _, k in sorted(s['genum'], key=lambda x: x[1]))
-                chk.case(key, nontrivial=len(exp) > 1)
+                C.case(key, nontrivial=len(exp) > 1)
                 if ev['ev'] != 'declare_enum' or obs != exp:
-                    chk.violation('enum-members:' + key, f'{inf["full"]}: emitted members {obs or ev} != predicted {exp}',
+                    C.violation('enum-members:' + key, f'{inf["full"]}: emitted members {obs or ev} != predicted {exp}',
                                   dict(subject=s, observed=ev))
+                continue
+            if s['kind'] == 'file' and r.get('ads'):
                 continue
             if s['kind'] == 'file':
                 t = by_full.get(inf['full'])
                 exp = sorted(inf['names'][x] for x in s['manifest'])
                 ev = t['events'][0] if t else dict(ev='missing')
                 key = 'manifest:' + '+'.join(s['tops'])
-                chk.case(key, nontrivial=True)
+                C.case(key, nontrivial=True)
                 if ev['ev'] != 'manifest' or ev['names'] != exp or ev['all'] != exp or not set(exp) <= set(ev['exported']):
-                    chk.violation(key, f'{inf["full"]}: manifest/__all__/exports {ev} != predicted {exp}', dict(subject=s, observed=ev))
+                    C.violation(key, f'{inf["full"]}: manifest/__all__/exports {ev} != predicted {exp}', dict(subject=s, observed=ev))
                 continue
             ts = by_id.get(s['sid'], {})
             if not ts:
@@ -616,11 +657,11 @@ def main(chk, args):
             if s.get('big'):
                 # hand-laid shapes are judged by TypesTrace; a recorded exception is reported here as well (the number of
                 # rejections followed per batch is capped)
-                chk.case(f'{shape_class(s, reserved)}:{len(ts)} scripts')
+                C.case(f'{shape_class(s, reserved)}:{len(ts)} scripts')
                 for t in ts.values():
                     err = next((e for e in t['events'] if e['ev'] == 'error'), None)
                     if err is not None:
-                        chk.violation(f'roundtrip:error:{shape_class(s, reserved)}', f'{inf["full"]} ops={t.get("ops")}: {err["what"]}',
+                        C.violation(f'roundtrip:error:{shape_class(s, reserved)}', f'{inf["full"]} ops={t.get("ops")}: {err["what"]}',
                                       dict(subject=shape_class(s, reserved), trace=t['events'][1:]))
                         break
                 continue
@@ -630,19 +671,19 @@ def main(chk, args):
                        fields=[dict(d, ref=inf['tg'][d['ref']] if d['ref'] else '') for d in s['decl']['fields']])
             ev0 = t0['events'][0]
             dkey = 'decl:' + '+'.join(sorted(set(classes))) + f":d{s['ctx']['depth']}{s['ctx']['file']}"
-            chk.case(dkey, nontrivial=bool(s['fields']))
+            C.case(dkey, nontrivial=bool(s['fields']))
             if ev0['ev'] != 'declare':
                 what = ev0.get('what', '?')
                 storms[what] = storms.get(what, 0) + 1
                 if storms[what] <= 3:      # a module whose descriptors cannot be built fails for every class alike
-                    chk.violation('declare-error:' + '+'.join(sorted(set(classes))), f'{inf["full"]}: {ev0}', dict(subject=s, observed=ev0))
+                    C.violation('declare-error:' + '+'.join(sorted(set(classes))), f'{inf["full"]}: {ev0}', dict(subject=s, observed=ev0))
                 continue
             diffs, first = diff_decl(exp, ev0['decl'])
             if diffs:
                 for t in ts.values():
                     t['suspect'] = True
                 cl = classes[first] if first is not None else 'shape'
-                chk.violation(f'decl:{",".join(diffs)}:{cl}', f'{inf["full"]}: emitted class declares {ev0["decl"]}; predicted {exp}',
+                C.violation(f'decl:{",".join(diffs)}:{cl}', f'{inf["full"]}: emitted class declares {ev0["decl"]}; predicted {exp}',
                               dict(subject={k: v for k, v in s.items() if k != 'scripts'}, expected=exp, observed=ev0['decl']))
             # round trips
             for si, c in enumerate(s['scripts']):
@@ -652,7 +693,7 @@ def main(chk, args):
                 evs = {e['ev']: e for e in t['events']}
                 touched = sorted(set(classes[o['f'] - 1] + ':' + o['op'] for o in c['ops']))
                 skey = 'rt:' + '+'.join(sorted(set(classes))) + '|' + ','.join(touched)
-                chk.case(skey, nontrivial=bool(c['ops']))
+                C.case(skey, nontrivial=bool(c['ops']))
                 bad = []
                 if 'error' in evs:
                     bad.append('error ' + evs['error']['what'])
@@ -669,7 +710,7 @@ def main(chk, args):
                 if bad:
                     t['suspect'] = True
                     which = ','.join(sorted(set(b.split(':')[0].split(' ')[0] for b in bad)))
-                    chk.violation(f'roundtrip:{which}:' + ','.join(touched or ['empty']), f'{inf["full"]} ops={c["ops"]}: ' + '; '.join(bad),
+                    C.violation(f'roundtrip:{which}:' + ','.join(touched or ['empty']), f'{inf["full"]} ops={c["ops"]}: ' + '; '.join(bad),
                                   dict(subject={k: v for k, v in s.items() if k != 'scripts'}, case=c, trace=t['events']))
 
     for what, n in sorted(storms.items()):
